@@ -197,6 +197,17 @@ class NP:
             conj.append((lhs <= rhs).e)
         return bool(SB(z3.And(*conj))) if conj else True
 
+    def isclose(self, a, b, rtol=1e-5, atol=1e-8, **kw):
+        aa = _np.asarray(a); ba = _np.asarray(b)
+        if aa.dtype != object and ba.dtype != object and not isinstance(a, SR) and not isinstance(b, SR):
+            return _np.isclose(a, b, rtol=rtol, atol=atol, **kw)
+        aa, ba = _np.broadcast_arrays(aa, ba)
+        out = _np.empty(aa.shape, dtype=bool)
+        for idx in _np.ndindex(*aa.shape):
+            x = SR.lift(aa[idx]); y = SR.lift(ba[idx])
+            out[idx] = bool(abs(x - y) <= abs(y) * rtol + atol)
+        return out if out.ndim else bool(out[()])
+
     def loadtxt(self, fname, *a, **kw):
         if NP.LOADTXT is not None:
             arr = NP.LOADTXT(fname)
@@ -234,6 +245,15 @@ def dst(x, type=2, **kw):
     x = _np.asarray(x)
     if x.dtype != object:
         return _fftpack.dst(x, type=type, **kw)
+    n_ = kw.get('n')
+    if n_ is not None and n_ != len(x):
+        # scipy: the input is truncated or zero-padded to length n before the transform
+        if kw.get('overwrite_x'):
+            kw = dict(kw); kw['overwrite_x'] = False
+        xp = _np.empty(n_, dtype=object)
+        for i in range(n_):
+            xp[i] = x[i] if i < len(x) else 0.0
+        x = xp
     N = len(x)
     out = _np.empty(N, dtype=object)
     if type == 2:
